@@ -18,7 +18,7 @@ _REQ = ("From Coq Require Import NArith List Bool.\nFrom Pq Require Import Impl.
         "| PUnpack c u => (4, if u then 1 else 0, c) | PNone => (0, 0, 0) end.\n")
 
 
-def translate_dispatch(ctx):
+def translate_dispatch(ctx, proofs="GenDispatchProofs.v"):
     """returns ('translated' | 'fallback', table) - table: the decision functions evaluated by vm_compute in coqc"""
     enc = os.path.join(C.REPO, "fastparquet", "encoding.py")
     core = os.path.join(C.REPO, "fastparquet", "core.py")
@@ -43,8 +43,8 @@ def translate_dispatch(ctx):
                                                    else "pinned text: the translator refused the source"), ok, out)
     if not ok:
         return mode, None
-    gp = os.path.join(ctx.gen_dir, "GenDispatchProofs.v")
-    shutil.copy(os.path.join(C.COQ, "genproofs", "GenDispatchProofs.v"), gp)
+    gp = os.path.join(ctx.gen_dir, proofs)
+    shutil.copy(os.path.join(C.COQ, "genproofs", proofs), gp)
     ctx.coq_file(gp, extra_q=[(ctx.gen_dir, "PqGen")])
     # the decision tables, evaluated in the kernel
     exprs = ["map (fun w => [ic (v1_index_dispatch true w false); ic (v1_index_dispatch true w true); ic (v2_cat_dispatch true w false); "
